@@ -23,6 +23,8 @@ static QJsonObject op_json(const FOp &o)
             j["ms"] = (qint64)o.ms;
         if (o.days)
             j["days"] = o.days;
+        if (o.wj)
+            j["wj"] = o.wj;
         if (o.to)
             j["to"] = o.to;
     }
@@ -49,6 +51,7 @@ static FOp op_from(const QJsonObject &j)
     o.fmt = j["fmt"].toInt();
     o.ms = (int64_t)j["ms"].toDouble();
     o.days = j["days"].toInt();
+    o.wj = j["wj"].toInt();
     o.to = j["to"].toInt();
     o.crash_b = j.contains("crash_b") ? j["crash_b"].toInt() : -1;
     o.crash_torn = j["crash_torn"].toInt();
@@ -423,6 +426,15 @@ FPlan generate(const std::string &prop, const std::string &tier, uint64_t seed)
             }
         }
         p.ops = mixed;
+    }
+    {
+        // wall-clock steps (the clock is set, or the machine slept over midnight): in a quarter of the plans each day
+        // change is, with probability 1/2, a step of the wall clock only. Own stream: other choices stay as they were.
+        Rng r3(sim::mix(seed, 0x57e9c10cull));
+        if (r3.chance(1, 4))
+            for (auto &op : p.ops)
+                if (op.k == "advance" && op.days > 0 && r3.chance(1, 2))
+                    op.wj = 1;
     }
     return p;
 }
